@@ -129,8 +129,17 @@ Definition insert_att (wide : bool) (r : attrow) (l : list attrow) : list attrow
 Definition authority_of (d : list attrow) (sg : bytes) : option bytes :=
   match find (fun r => bytes_eqb (r_sig r) sg) d with Some r => Some (r_auth r) | None => None end.
 
+(* a Python set of signed objects (equality = equal signed plaintext), listed in first-occurrence order *)
+Fixpoint dedup_by {A} (eqb : A -> A -> bool) (l : list A) : list A :=
+  match l with
+  | [] => []
+  | x :: tl => x :: filter (fun y => negb (eqb x y)) (dedup_by eqb tl)
+  end.
+Definition md_eqb (a b : metadata) : bool := bytes_eqb (md_signed a) (md_signed b).      (* Metadata.__eq__ *)
+
+(* pseudonym.get_credentials(): get_credentials_for -> the SET get_metadata_for(public_key) *)
 Definition credentials_of (pk : bytes) (d : list (bytes * metadata)) : list metadata :=
-  map snd (filter (fun r => bytes_eqb (fst r) pk) d).
+  dedup_by md_eqb (map snd (filter (fun r => bytes_eqb (fst r) pk) d)).
 
 Definition get_tree (k : bytes) (ps : list (bytes * tree)) : tree :=
   match alookup k ps with Some t => t | None => empty_tree 100 end.
@@ -182,7 +191,7 @@ Definition add_atts (subj : bytes) (atts : list (bytes * attestation)) (d : list
 Definition substantiate (s : state) (pk : bytes) (mds : list metadata) (toks : list token)
            (atts : list (bytes * attestation)) (fail : option nat) : state * res bool :=
   match gather_list pk (get_tree pk (pseus s)) toks true with
-  | Raise e => (s, Raise e)
+  | Raise e => (set_pseus s (aset pk (get_tree pk (pseus s)) (pseus s)), Raise e)   (* get_pseudonym registered it *)
   | Ok (tr1, c1) =>
       let s1 := set_pseus s (aset pk tr1 (pseus s)) in
       if fail_is fail 0 then (s1, Raise StructError) else
@@ -312,7 +321,7 @@ Definition advertise (s : state) (peer : option bytes) (h json : bytes) (jlen : 
   let ah := norm h in
   let tok := mkToken prev ah (mysign (prev ++ ah)) None in
   match gather_top hash sigverify me (append_elem tr0 tok) tok with
-  | Raise e => (s, [], Some e)
+  | Raise e => (set_pseus s (aset me (append_elem tr0 tok) (pseus s)), [], Some e)   (* add_by_hash stored it *)
   | Ok (tr2, r) =>
       let s1 := set_pseus s (aset me tr2 (pseus s)) in
       let md := mkMd (thash hash tok) json (mysign (thash hash tok ++ json)) in
@@ -322,7 +331,8 @@ Definition advertise (s : state) (peer : option bytes) (h json : bytes) (jlen : 
           if negb (md_verify me md) then (s1, [], None) else
           let s2 := set_dmd s1 (insert_md me md (dmd s1)) in
           match find_key hash (m_tptr md) (elements tr2) with
-          | None => (s2, [], Some KeyError)
+          | None => (set_chains s2 (chain s2) (mdchain s2 ++ [md]), [], Some KeyError)
+              (* metadata_chain.append precedes the lookup for token_chain.append *)
           | Some tk =>
               let s3 := set_chains s2 (chain s2 ++ [tk]) (mdchain s2 ++ [md]) in
               match peer with
